@@ -770,6 +770,7 @@ func runHistory(cfg *config, id int, r *hx.Rng, o histOpts) {
 				d.recoverDB()
 			}
 			d.selectEvery()
+			d.roots() // the trees recovery rebuilt are well formed (C11)
 		}
 	}
 	d.selectEvery()
@@ -817,6 +818,7 @@ func runDeep(cfg *config, id int, r *hx.Rng, rows int, crashes bool) {
 				if d.recoverDB() != "ok" {
 					return
 				}
+				d.roots()
 			}
 		case 6:
 			d.selectEvery()
